@@ -158,6 +158,7 @@ type Exec struct {
 	Poisoned   atomic.Bool
 	dummies    []interface{} // pointers handed out by PoisonPtr
 	late       []string
+	seen       [][2]uint64
 }
 
 // SetPoison registers the assignments that overwrite the argument variables of
@@ -175,6 +176,23 @@ func (x *Exec) runPoison() {
 			x.Poisoned.Store(true)
 		})
 	}
+}
+
+// Seen records the value a function literal read from a variable of the
+// enclosing function (fn: the literal's function id).
+func (x *Exec) Seen(fn int, tok uint64) {
+	if x.Quiet {
+		return
+	}
+	x.mu.Lock()
+	x.seen = append(x.seen, [2]uint64{uint64(fn), tok})
+	x.mu.Unlock()
+}
+
+func (x *Exec) SeenValues() [][2]uint64 {
+	x.mu.Lock()
+	defer x.mu.Unlock()
+	return append([][2]uint64(nil), x.seen...)
 }
 
 // NoteLate records evidence, gathered by the program itself after the
@@ -353,6 +371,12 @@ func (e *CallErr) Error() string {
 	return fmt.Sprintf("exec %d: function %d (key %d) failed", e.Exec, e.Fn, e.Key)
 }
 
+// FieldErrors is an error whose dynamic type is a slice: comparing two such
+// values with == panics.
+type FieldErrors []string
+
+func (f FieldErrors) Error() string { return strings.Join(f, "; ") }
+
 // PanicStruct is the custom panic value kind.
 type PanicStruct struct {
 	Fn  int
@@ -387,6 +411,12 @@ func PanicValue(exec uint64, fn int, key uint64, kind int) interface{} {
 		return &CallErr{Exec: exec, Fn: fn, Key: key}
 	case 2:
 		return PanicStruct{Fn: fn, Key: key}
+	case 6:
+		return []string{"panic", fmt.Sprint(exec), fmt.Sprint(fn), fmt.Sprint(key)} // not comparable
+	case 7:
+		return FieldErrors{fmt.Sprintf("exec %d", exec), fmt.Sprintf("fn %d", fn), fmt.Sprintf("key %d", key)} // an error of slice type
+	case 8:
+		return map[string]uint64{"exec": exec, "fn": uint64(fn), "key": key} // not comparable
 	default:
 		return 1000000 + fn
 	}
@@ -526,7 +556,7 @@ func (x *Exec) quietCall(ctx context.Context, fn int, key uint64, f prog.FnInfo,
 	case prog.OErr:
 		ret.Err = &CallErr{Exec: x.ID, Fn: fn, Key: key}
 	case prog.OPanic:
-		panic(PanicValue(x.ID, fn, key, o.PanicKind%4))
+		panic(PanicValue(x.ID, fn, key, o.PanicKind))
 	case prog.OGoexit:
 		runtime.Goexit()
 	}
